@@ -364,7 +364,9 @@ pub fn run(run: &Run) {
     run.assume("a watchdog of 10 s (normal run time ~5 ms) decides 'hang'; panic sites are keyed by file::function, resolved from the reported line, so unrelated line shifts do not rename a finding");
     replay_regress(run, &C07);
     search(run, &C07, run.tier.pick(20_000, 400_000));
-    cli_family(run);
+    cli_family(run);    if run.tier == Tier::Thorough {
+        crate::fuzz::campaign(run, "c07_total", 2_000_000, 2048);
+    }
 }
 
 pub fn replay(run: &Run, case: &serde_json::Value) -> Result<Vec<Violation>, String> {
